@@ -40,6 +40,7 @@ fn main() {
         "describe-record" => describe::record(rest),
         "eval-replay" => eval::eval_replay(rest),
         "eval-record" => eval::eval_record(rest),
+        "determinism-replay" => eval::determinism_replay(rest),
         "render-replay" => parse::render_replay(rest),
         "render-record" => parse::render_record(rest),
         "render-one" => parse::render_one(rest),
